@@ -10,7 +10,10 @@ pub struct Level { pub mutable: bool, pub win: Win }
 
 fn cells_of<V: TooDeeOps<u32>>(v: &V, o: &mut Vec<u64>) {
     let (c, r) = v.size();
-    o.extend([1, c as u64, r as u64, (c * r) as u64]);
+    // num_cols / num_rows / is_empty / rows().len() / cells().len() must all tell the same story
+    let consistent = v.num_cols() == c && v.num_rows() == r && v.is_empty() == (c * r == 0)
+        && v.rows().len() == r && v.cells().len() == c * r;
+    o.extend([1, c as u64, r as u64, if consistent { (c * r) as u64 } else { u64::MAX }]);
     for y in 0..r { for x in 0..c { o.push(v[(x, y)] as u64); } }
 }
 fn bump_all(v: &mut TooDeeViewMut<'_, u32>) {
